@@ -1160,7 +1160,7 @@ pub struct Plan {
     pub hostile: Option<(String, Lit)>,
 }
 
-pub const HOSTILE_STRINGS: [&str; 2] = ["a>=b", "x<=y"];
+pub const HOSTILE_STRINGS: [&str; 4] = ["a>=b", "x<=y", "a>=", "<="];
 
 pub fn has_op_token(l: &Lit) -> bool {
     matches!(l, Lit::S(s) if [">=", "<=", "==", "!="].iter().any(|t| s.contains(t)))
